@@ -5,6 +5,7 @@ mod agg;
 mod lat;
 mod idx;
 mod uf;
+mod trind;
 mod lat_types;
 
 use std::io::{BufRead, Write};
@@ -17,6 +18,7 @@ fn main() {
    let mut out = std::io::BufWriter::new(stdout.lock());
    let mut store = idx::Store::default();
    let mut ufstore = uf::Store::default();
+   let mut tristore = trind::Store::default();
    for line in stdin.lock().lines() {
       let line = line.unwrap();
       let toks = match sexp::parse_line(&line) {
@@ -35,6 +37,7 @@ fn main() {
          Some("idx") => store.handle(&toks[1..]),
          Some("uf") => ufstore.handle_uf(&toks[1..]),
          Some("tr") => ufstore.handle_tr(&toks[1..]),
+         Some("tri") => tristore.handle(&toks[1..]),
          Some("lat") => (|| lat_types::dispatch(toks.get(1)?.atom()?, toks.get(2)?.atom()?, &toks[3..]))(),
          _ => None,
       }));
